@@ -61,6 +61,16 @@ func (c *C13) Run(x *engine.Ctx) *engine.Violation {
 	w := &service.World{Sim: sim, Sys: c.sys, Cycles: 1, StopAfterBegun: -1, WaitBound: true}
 	gen := &service.Gen{T: t, Sys: c.sys}
 	n := 2 + t.Draw(4)
+	weights := [6]int{3, 2, 1, 2, 0, 1}
+	if t.Chance(1, 5) {
+		// a crowd: 9..16 requests in flight at once, most of them cheap to refuse, around the two valid ones - whatever
+		// the server keeps per request in a bounded structure (a ring, a pool, a fixed table) gets recycled while the
+		// slow ones are still being proved
+		n = 9 + t.Draw(8)
+		weights = [6]int{1, 3, 2, 5, 0, 1}
+		sim.MaxSteps += n * 800
+		x.S.Count("probe:crowd_of_nine_or_more_overlapping_requests")
+	}
 	for i := 0; i < n; i++ {
 		var r *service.Request
 		if i < 2 {
@@ -68,7 +78,7 @@ func (c *C13) Run(x *engine.Ctx) *engine.Violation {
 		} else if t.Chance(1, 4) {
 			r = gen.InvalidVariantOf(w.Requests()[t.Pick(2)]) // shares hash and a root with one of the valid requests
 		} else {
-			r = pickRequest(t, gen, [6]int{3, 2, 1, 2, 0, 1})
+			r = pickRequest(t, gen, weights)
 		}
 		w.AddConn(&service.ClientConn{Addr: service.ProverAddr, Reqs: []*service.Request{r}, Frag: t.Draw(4), StartStep: 55 + t.Draw(40)})
 	}
@@ -206,6 +216,14 @@ func (c *C09) Run(x *engine.Ctx) *engine.Violation {
 	nconn := 1 + t.Draw(3)
 	type meta struct{ frame, fault string }
 	metas := map[*service.Request]meta{}
+	// valid requests opening a connection, with the step at which that connection starts: a later connection may
+	// open, at about the same moment, with an invalid variant of one of them (same input hash, other content), so
+	// that the two are in the handler at the same time - each is owed the answer to its own content
+	type opener struct {
+		r    *service.Request
+		step int
+	}
+	var openers []opener
 	for i := 0; i < nconn; i++ {
 		cc := &service.ClientConn{Addr: service.ProverAddr, Frag: t.Draw(4), StartStep: 55 + t.Draw(60), Pipelined: t.Chance(1, 4), CutAt: -1}
 		k := 1 + t.Draw(3)
@@ -214,6 +232,19 @@ func (c *C09) Run(x *engine.Ctx) *engine.Violation {
 			r := pickRequest(t, gen, [6]int{3, 2, 2, 5, 2, 2})
 			if lastValid != nil && t.Chance(1, 3) {
 				r = gen.InvalidVariantOf(lastValid) // same key material as an earlier valid request, invalid batch
+			}
+			if j == 0 && len(openers) > 0 && t.Chance(1, 2) {
+				o := openers[t.Pick(len(openers))]
+				r = gen.InvalidVariantOf(o.r)
+				r.Kind += "+overlapping-its-valid-twin"
+				cc.StartStep = o.step + t.Draw(9) - 2
+				cc.Frag = 0
+				x.S.Count("probe:invalid_variant_sent_alongside_its_valid_twin")
+			} else if j == 0 && i+1 < nconn && t.Chance(1, 2) {
+				r = gen.Valid()
+			}
+			if j == 0 && r.Doc != nil && strings.HasPrefix(r.Kind, "valid") {
+				openers = append(openers, opener{r, cc.StartStep})
 			}
 			if r.Doc != nil {
 				lastValid = r
